@@ -90,7 +90,7 @@ def _random_pattern_matrix(rng, pairs, scale, system):
     return _symmetrise(system, M)
 
 
-def make_case(rng, system=None, nt=None, nv=None, scale=None):
+def make_case(rng, system=None, nt=None, nv=None, scale=None, unstable=False):
     systems = list(EXTRA) + ["random"] * 4
     system = system or systems[int(rng.integers(len(systems)))]
     if system == "random":
@@ -132,9 +132,20 @@ def make_case(rng, system=None, nt=None, nv=None, scale=None):
         std = {1: (1, 1), 2: (2, 2), 3: (3, 3), 4: (2, 3), 5: (1, 3), 6: (1, 2)}
         body = [f"{i}{j}", f"_{i}{j}", "%d%d%d%d" % (std[i] + std[j]), f"{j}{i}"][int(rng.integers(4))]
         pre.append("c" + body + ["", "s", "t", "t"][int(rng.integers(4))])
-    return {"kind": "spd", "system": system, "keys": [list(k) for k in keys], "fields": [f.tolist() for f in fields],
+    # the order in which the nine reported quantities are read the first time (they are all read AGAIN at the end: what a later
+    # read does to a value handed out earlier is part of the history the results must not depend on)
+    read_order = [int(i) for i in rng.permutation(9)]
+    case = {"kind": "spd", "system": system, "keys": [list(k) for k in keys], "fields": [f.tolist() for f in fields],
             "nt": nt, "nv": nv, "v": v_array.tolist(), "t": numpy.linspace(0.0, 300.0 * max(nt - 1, 1), nt).tolist(),
-            "cellmass": float(rng.uniform(20.0, 600.0)), "pre_reads": pre}
+            "cellmass": float(rng.uniform(20.0, 600.0)), "pre_reads": pre, "read_order": read_order}
+    if unstable and nt * nv >= 2:
+        # one grid point with a shear instability (c44 < 0 there: indefinite but invertible), as at the hot / expanded corner of a
+        # real (T,V) grid; the statement speaks about the positive-definite points, which must not be affected by that corner
+        t0, v0 = int(rng.integers(nt)), int(rng.integers(nv))
+        k44 = [tuple(k) for k in keys].index((4, 4))
+        f = numpy.array(case["fields"][k44]); f[t0, v0] = -abs(f[t0, v0]); case["fields"][k44] = f.tolist()
+        case["unstable_points"] = [[t0, v0]]
+    return case
 
 
 def edge_cases(rng):
@@ -200,14 +211,28 @@ def run_impl(case):
             getattr(vb, name)
         except Exception:
             pass
-    for name, attr in (("kV", "bulk_modulus_voigt"), ("kR", "bulk_modulus_reuss"), ("kH", "bulk_modulus_voigt_reuss_hill"),
-                       ("gV", "shear_modulus_voigt"), ("gR", "shear_modulus_reuss"), ("gH", "shear_modulus_voigt_reuss_hill"),
-                       ("mass", "mass"), ("vp", "primary_velocities"), ("vs", "secondary_velocities")):
+    QUANT = (("kV", "bulk_modulus_voigt"), ("kR", "bulk_modulus_reuss"), ("kH", "bulk_modulus_voigt_reuss_hill"),
+             ("gV", "shear_modulus_voigt"), ("gR", "shear_modulus_reuss"), ("gH", "shear_modulus_voigt_reuss_hill"),
+             ("mass", "mass"), ("vp", "primary_velocities"), ("vs", "secondary_velocities"))
+    for idx in case.get("read_order", range(9)):
+        name, attr = QUANT[idx]
         try:
             with numpy.errstate(all="ignore"):
-                out[name] = numpy.array(getattr(vb, attr), dtype=float)
+                out[name] = numpy.array(getattr(vb, attr), dtype=float)        # a copy: later reads cannot change it
         except Exception as e:
             out[name] = "error"; out[name + "_exc"] = f"{type(e).__name__}: {e}"
+    # read everything once more, on the same interface object: every value must be what it was
+    changed = []
+    for name, attr in QUANT:
+        if isinstance(out[name], str): continue
+        try:
+            with numpy.errstate(all="ignore"):
+                again = numpy.array(getattr(vb, attr), dtype=float)
+            if again.shape != out[name].shape or not numpy.array_equal(again, out[name], equal_nan=True):
+                changed.append(name)
+        except Exception as e:
+            changed.append(f"{name}:{type(e).__name__}")
+    out["changed_on_reread"] = changed
     # attribute-style lookups c_ij / s_ij as the interface serves them
     look = {}
     for (i, j) in [(1, 1), (1, 2), (2, 3), (4, 4), (6, 6)]:
@@ -336,13 +361,36 @@ def oracle(case, impl, consts):
         fails.append((clause, {"missing": missing, "exceptions": exc, "compliance_keys_absent": [list(k) for k in dropped]},
                       "all six moduli, the compliances and both velocities reported for a positive-definite stiffness"))
         return fails
+    if impl.get("changed_on_reread"):
+        fails.append(("reported value changes when read again", impl["changed_on_reread"], "the same arrays on every read"))
     compl = impl["compl"]
     C4, S4, C6, S6 = full_tensors(case, compl)
+    # the statement is about positive-definite stiffness: grid points where the tensor is not (one may be planted) are left out,
+    # every other point must satisfy every clause whatever happens at those
+    pdm = numpy.linalg.eigvalsh(C6).min(axis=-1) > 0
+    if not pdm.any(): return fails
+    impl = dict(impl)
+    for n in ("kV", "kR", "kH", "gV", "gR", "gH", "vp", "vs"):
+        impl[n] = numpy.where(pdm, impl[n], 1.0)
+    for T_ in (C4, S4):
+        T_[~pdm] = 0.0
+    C6[~pdm] = numpy.eye(6); S6[~pdm] = numpy.eye(6)
+    with numpy.errstate(all="ignore"):
+        C4[~pdm] = numpy.einsum("ik,jl->ijkl", numpy.eye(3), numpy.eye(3)) * 0.5 + numpy.einsum("il,jk->ijkl", numpy.eye(3), numpy.eye(3)) * 0.5
+        S4[~pdm] = C4[~pdm]
     ciijj = numpy.einsum("tviijj->tv", C4); cijij = numpy.einsum("tvijij->tv", C4)
     siijj = numpy.einsum("tviijj->tv", S4); sijij = numpy.einsum("tvijij->tv", S4)
     exp = {"kV": ciijj / 9.0, "gV": (3.0 * cijij - ciijj) / 30.0, "kR": 1.0 / siijj, "gR": 15.0 / (6.0 * sijij - 2.0 * siijj)}
+    for n in ("kV", "gV", "kR", "gR"):
+        impl[n] = numpy.where(pdm, impl[n], exp[n])                     # left-out points: expected values on both sides
     exp["kH"] = (impl["kR"] + impl["kV"]) / 2.0
     exp["gH"] = (impl["gR"] + impl["gV"]) / 2.0
+    for n in ("kH", "gH"):
+        impl[n] = numpy.where(pdm, impl[n], exp[n])
+    V_ = numpy.array(case["v"], dtype=float)[None, :]
+    rho_ = case["cellmass"] * 1e-3 / (N_A * V_)
+    impl["vs"] = numpy.where(pdm, impl["vs"], numpy.sqrt(numpy.abs(impl["gH"]) * RY_KG_KM2_S2 / rho_))
+    impl["vp"] = numpy.where(pdm, impl["vp"], numpy.sqrt(numpy.abs(impl["kH"] + 4.0 * impl["gH"] / 3.0) * RY_KG_KM2_S2 / rho_))
     sc = max(float(numpy.max(numpy.abs(impl[n]))) for n in ("kV", "kR", "kH", "gV", "gR", "gH"))
     label = {"kV": "K_V = C_iijj/9", "gV": "G_V = (3C_ijij - C_iijj)/30", "kR": "K_R = 1/S_iijj",
              "gR": "G_R = 15/(6S_ijij - 2S_iijj)", "kH": "K_VRH = (K_R+K_V)/2", "gH": "G_VRH = (G_R+G_V)/2"}
@@ -473,6 +521,8 @@ def run(ctx: Ctx) -> Result:
     for system in EXTRA:
         for _ in range(6 if ctx.thorough() else 3):
             cases.append(make_case(rng, system=system))
+    for _ in range(40 if ctx.thorough() else 12):
+        cases.append(make_case(rng, nt=int(rng.integers(2, 4)), nv=int(rng.integers(2, 5)), unstable=True))
     while len(cases) < n_main:
         cases.append(make_case(rng))
     if ctx.thorough():
